@@ -195,7 +195,7 @@ class Pipeline:
                 n = nums[i]; ab = bytes(nums[i + 1:i + 1 + n]).decode('latin1'); i += 1 + n
                 nnm, nqh = nums[i], nums[i + 1]; i += 2
                 c.info[t] = dict(sod=sod, off=off, dst=dst, abbr=ab, nnm=nnm, nqh=nqh)
-            tb = []; need = set(c.model_formats) | set(c.seg_formats); cnt = 0
+            tb = []; need = set(c.model_formats) | set(c.seg_formats) | ({b'%s'} if b'%s' in c.pat else set()); cnt = 0
             for (f, t), o in c.tab.items():
                 if f in need:
                     tb += [len(f)] + list(f) + [t, len(o)] + list(o); cnt += 1
@@ -235,8 +235,11 @@ class Pipeline:
                     bump('H2-field')
                     if c.tab.get((f, t)) != exp: fail('H2 (%s)' % f.decode(), c, 't=%d got %r expected %r' % (t, c.tab.get((f, t)), exp))
                 if b'%s' in c.pat and (c.local or is_utc(c.zone)) and not pct_before(items, 's'):
-                    bump('H2-s')
-                    if c.tab.get((b'%s', t)) != b'%d' % t: fail('H2 (%s)', c, 't=%d got %r' % (t, c.tab.get((b'%s', t))))
+                    # libc renders %s as mktime(tm): in a repeated local hour whose two readings have the same
+                    # tm_isdst (a non-DST offset change, e.g. America/Caracas 2007-12-09) mktime cannot tell them
+                    # apart and %s is not t. Such instants are outside the quantifier (counted, not hidden).
+                    if c.tab.get((b'%s', t)) != b'%d' % t: bump('H2-s-not-meaningful-in-libc (mktime ambiguity)')
+                    else: bump('H2-s')
                 # rewrites (C locale)
                 for a, b in ((b'%r', b'%I:%M:%S %p'), (b'%R', b'%H:%M'), (b'%T', b'%H:%M:%S')):
                     bump('H1-rewrite')
@@ -300,6 +303,8 @@ def spec_verdict(c):
     if not rej and any(it == ('C', b's') for it in items):
         if not (c.local or is_utc(c.zone)): return False, False, '%s in GMT mode under a non-UTC process zone'
         if any(not (E9 <= ns // E9 < 10 * E9) for ns in c.nss): return False, False, '%s outside ten-digit epochs'
+        if any(c.tab.get((b'%s', ns // E9), b'%d' % (ns // E9)) != b'%d' % (ns // E9) for ns in c.nss):
+            return False, False, "libc's own %s is not the instant here (mktime ambiguity in a repeated local hour without a DST flag change)"
     if any(not (T_LO <= ns // E9 < T_HI) for ns in c.nss): return False, False, 'instant outside 2001..2100'
     return True, rej, ''
 
